@@ -730,12 +730,16 @@ class List(list, base.Symbolic, pg_typing.CustomTyping):
     if base.treats_as_sealed(self):
       raise base.WritePermissionError('Cannot sort a sealed List.')
     super().sort(key=key, reverse=reverse)
+    # The items have moved: re-index the children.
+    self._update_children_paths(self.sym_path, self.sym_path)
 
   def reverse(self) -> None:
     """Reverse the elements of the list in place."""
     if base.treats_as_sealed(self):
       raise base.WritePermissionError('Cannot reverse a sealed List.')
     super().reverse()
+    # The items have moved: re-index the children.
+    self._update_children_paths(self.sym_path, self.sym_path)
 
   def custom_apply(
       self,
